@@ -128,14 +128,19 @@ def run(ctx: Ctx):
     ctx.check("self.table_index.fields[0].domain" in ast.unparse(T.methods["keys"].node), "KEY-1", T.methods["keys"], T.methods["keys"].node, "keys iterate the outermost domain in order", "", "keys do not iterate the outermost domain")
     ctx.check("len(self.table_index.fields[0].domain)" in ast.unparse(T.methods["__len__"].node), "KEY-1", T.methods["__len__"], T.methods["__len__"].node, "len is the size of the outermost domain", "", "len is not the outermost domain's size")
     AT = P.cls("AbstractTable")
-    ctx.check(Snips(AT.methods["items"]).has("((k, self[k]) for k in self.keys())"), "KEY-1", AT.methods["items"], AT.methods["items"].node, "items pair every outer key with its own entry", "", "items pairing changed")
+    ctx.check(Snips(AT.methods["items"]).has("((k, self[k]) for k in self.keys())") or Snips(AT.methods["items"]).solve(["for k in self.keys():\n    yield (k, self[k])"]) is not None, "KEY-1", AT.methods["items"], AT.methods["items"].node, "items pair every outer key with its own entry", "", "items pairing changed")
     # probability rows: the roles are those of ProbabilityTable.__getitem__ bound above
     PT = P.cls("ProbabilityTable").methods["__getitem__"]
     SP, proles = getitem_roles["ProbabilityTable"]
     ok = False
-    for n in ast.walk(PT.node):
-        if isinstance(n, ast.If) and SP.m("new_data.ndim <= -self.probs_start_index", n.test, proles) is not None:
-            ok = ok or any(SP.has("return TableDistribution(data=new_data, table_index=new_table_index)", proles, within=b) for b in n.body)
+    from ..util import lexical_guards
+    for n in ast.walk(PT.node):     # the distribution is returned exactly under  ndim <= -probs_start_index  (either branch order)
+        if isinstance(n, ast.Return) and SP.m("return TableDistribution(data=new_data, table_index=new_table_index)", n, proles) is not None:
+            for t, lab in lexical_guards(PT, n):
+                if lab.startswith("T") and SP.m("new_data.ndim <= -self.probs_start_index", t, proles) is not None:
+                    ok = True
+                if lab.startswith("F") and SP.m("new_data.ndim > -self.probs_start_index", t, proles) is not None:
+                    ok = True
     ctx.check(ok, "ROW-1", PT, PT.node, "a selection of probability rank becomes a distribution over the remaining domain", "", "probability rows are not turned into distributions at probability rank")
     ad = P.method("TabularPolicy", "action_dist")
     last = ad.node.body[-1]
